@@ -18,7 +18,7 @@ pub fn run_c07(tier: Tier) -> Report {
     rep.set_rule(
         "every (Y,Cb,Cr) in 0..=255^3: (A) uniform 7x1 picture = SIMD lanes 0..3 + remainder slots 0..2; \
          (B) 7 pictures 7x1 with the triple at position p and the complementary colour elsewhere; \
-         (C) every triple inside 16- and 32-wide pictures (no remainder columns); (E) every (Cb,Cr) next to six partners derived from it (neutral, neutral in one component, complemented in one component, off by one) on either side within one group of four pixels; (D) all 512 combinations of byte offsets 0..7 of the three plane slices in their buffers on nine shapes; \
+         (C) every triple inside 16- and 32-wide pictures (no remainder columns); (E) every (Cb,Cr) next to six partners derived from it (neutral, neutral in one component, complemented in one component, off by one) on either side within one group of four pixels; (F) one chroma sample differing from an otherwise uniform (neutral or coloured) chroma plane, at every position, widths 1..=40 x heights 1..=4; (D) all 512 combinations of byte offsets 0..7 of the three plane slices in their buffers on nine shapes; \
          non-trivial = triple with at least one unclamped channel (1..=254)",
     );
     rep.extra("model_coefficients", json!([m.gray, m.cr2r, m.cr2g, m.cb2g, m.cb2b]));
@@ -178,6 +178,45 @@ pub fn run_c07(tier: Tier) -> Report {
         }
     });
     rep.add_transitions(65536 * 24);
+    // (F) one chroma sample differs from an otherwise uniform chroma plane - at every position of
+    // every plane for widths 1..=40 and heights 1..=4: a decision taken for a whole row or picture
+    // from a scan that misses one position (the tail behind the whole groups, the last row) shows here
+    {
+        let bases: [((u8, u8), (u8, u8)); 4] = [((128, 128), (90, 240)), ((128, 128), (128, 240)), ((90, 240), (128, 128)), ((60, 200), (60, 201))];
+        let work: Vec<(usize, usize)> = (1..=40usize).flat_map(|w| (1..=4usize).map(move |h| (w, h))).collect();
+        let n_f = AtomicU64::new(0);
+        work.par_iter().for_each(|&(w, h)| {
+            let (cw, chh) = (w.div_ceil(2), h.div_ceil(2));
+            let y: Vec<u8> = (0..w * h).map(|k| [16u8, 125, 200, 235, 81, 41, 106, 180, 60][k % 9]).collect();
+            for (base, odd) in bases {
+                for pos in 0..cw * chh {
+                    let mut cbp = vec![base.0; cw * chh];
+                    let mut crp = vec![base.1; cw * chh];
+                    cbp[pos] = odd.0;
+                    crp[pos] = odd.1;
+                    n_f.fetch_add(1, Ordering::Relaxed);
+                    match catch(|| yuv420_to_rgba(&y, &cbp, &crp, w)) {
+                        Err(p) => rep.violation(&crate::evidence::panic_sig(&p), format!("{w}x{h} picture, chroma {base:?} except sample {pos} = {odd:?}: panic {p}"), replay_json(w, &y, &cbp, &crp)),
+                        Ok(o) => {
+                            for k in 0..w * h {
+                                let (x, yy) = (k % w, k / w);
+                                let ci = (yy / 2) * cw + x / 2;
+                                let e = m.conv(y[k], cbp[ci], crp[ci]);
+                                if o.len() != 4 * w * h || o[4 * k..4 * k + 4] != e {
+                                    rep.violation_lazy("C07/colour-one-odd-chroma-sample", || {
+                                        (format!("{w}x{h} picture, chroma {base:?} everywhere except sample {pos} = {odd:?}: pixel ({x},{yy}) converts to {:?}, model {:?}", o.get(4 * k..4 * k + 4), e), replay_json(w, &y, &cbp, &crp))
+                                    });
+                                    break;
+                                }
+                            }
+                        }
+                    }
+                }
+            }
+        });
+        rep.add_transitions(n_f.load(Ordering::Relaxed));
+        rep.extra("one_odd_chroma_sample_pictures", json!(n_f.load(Ordering::Relaxed)));
+    }
     let n_place = placement_sweep(&rep, &m, "C07", crate::evidence::seed());
     rep.add_transitions(n_place);
     rep.extra("slice_placements", json!(n_place));
